@@ -127,6 +127,26 @@ Proof.
 Qed.
 Print Assumptions C13_switch_to_consensus_ok_except_known.
 
+(* What the rebuilt LastCommit stands for.  A commit that block sync accepted for block id [bid]
+   at height [h] (VerifyCommit against a well-formed set whose validators carry their key's
+   address), outside class F31, is turned by CommitToVoteSet — whenever that returns — into a
+   vote set whose +2/3 majority is for exactly [bid]: together with
+   C13_saved_only_if_committed, the LastCommit consensus starts with is a +2/3 commit for the
+   very block that was stored at that height. *)
+Theorem C13_reconstructed_majority_is_for_stored_block :
+  forall (sig : Type) (sv : key -> signmsg -> sig -> bool) (pk_addr : key -> addr)
+         (chain : Z) (c : commit sig) (vals : list validator) (bid : blockid) (h : Z) (vs : voteset),
+    wf_valset vals -> keys_ok pk_addr vals -> 0 < h ->
+    verify_commit sv vals chain bid h c = R_ok ->
+    addrs_ok sig vals (c_sigs c) ->
+    commit_to_voteset sv pk_addr chain c vals = Some vs ->
+    vs_maj23 vs = Some bid.
+Proof.
+  intros sig sv pk chain c vals bid h vs Hwf Hk Hh Hv Ha Hc.
+  exact (reconstruct_maj_bid sig sv pk chain c vals bid h vs Hwf Hk Hh Hv Ha Hc).
+Qed.
+Print Assumptions C13_reconstructed_majority_is_for_stored_block.
+
 (* Non-vacuity: a chain with InitialHeight 5, three validators of power 10; a fresh node (empty
    store, state at 0) receives blocks 5 and 6 from peer 1 and syncs exactly ONE block
    (LastBlockHeight = InitialHeight).  The premises hold and the switch yields height 6 with a
